@@ -24,7 +24,7 @@ type c15Data struct {
 
 func c15tier(t string) int {
 	if t == "thorough" {
-		return 1500000
+		return 5000000
 	}
 	return 150000
 }
